@@ -146,7 +146,7 @@ func beUint(b []byte) uint64 {
 }
 
 // CheckC10: cleanup.
-func CheckC10(tier string) int {
+func modelsC10(tier string) ([]*PktModel, []int) {
 	props := map[string]bool{"C10": true}
 	mk := func(name string, relay string, max int) *PktModel {
 		m := &PktModel{Name: name, Names: []string{A, B, C}, Props: props, ProbeMode: "try",
@@ -161,8 +161,18 @@ func CheckC10(tier string) int {
 		models = []*PktModel{mk("direct-3-packets", "", 3), mk("via-relay-3-packets", B, 3)}
 		depth = []int{14, 14}
 	}
+	return models, depth
+}
+
+func CheckC10(tier string) int {
+	models, depth := modelsC10(tier)
+
 	return RunPkt("C10", tier, models, depth, tierBudget(tier, 100*time.Second, 15*time.Minute), append([]string{
 		"clean(N) is offered on the source for every N in 1..max+1 in every state; accepted cleans are judged against the ghost (which sequences were sent and acknowledged on the source); receive-clean messages without the source's clean point behind them are probes that must be rejected",
 		"in all descendant states every packet and acknowledgement at or below a clean point is re-submitted with a fresh proof and must be rejected",
 	}, commonAssumptions...))
+}
+
+func init() {
+	PktRegistry["C10"] = func(tier string) []*PktModel { m, _ := modelsC10(tier); return m }
 }
